@@ -19,7 +19,7 @@
      staticset  "members" = children, "mergeSets" = merge
      dir        "entries" = children[1]
    stored = FALSE: the blob exists (has a ref) but is neither in the store nor indexed. *)
-EXTENDS Naturals, Sequences
+EXTENDS Integers, Sequences
 
 It(id, kind) == [id |-> id, kind |-> kind, target |-> 0, transitive |-> FALSE, expires |-> 0, search |-> FALSE,
                  parts |-> <<>>, children |-> <<>>, merge |-> <<>>, mention |-> <<>>, stored |-> TRUE]
@@ -34,6 +34,7 @@ Delete(id, target) == [It(id, "delete") EXCEPT !.target = target]
 Past   == 100            \* 2011: long expired
 Future == 1000000000     \* 2043: not yet expired
 NowS   == 500000000      \* the model's clock (2027); the driver logs the real one
+UnixEpoch == 0 - 1322443957   \* 1970-01-01T00:00:00Z on this axis: expired for 41 years (and "zero" to careless time code)
 
 (* A: directory tree  dir -> static-set -> file -> (bytes -> chunk, chunk); a chunk and a file that
    merely MENTION another blob; transitive / non-transitive / expired / not-yet-expired shares. *)
@@ -108,7 +109,8 @@ WorldE == <<
   Share(8, 3, TRUE, 0),
   Delete(9, 8),
   Delete(10, 9),
-  [Delete(11, 10) EXCEPT !.stored = FALSE] >>
+  [Delete(11, 10) EXCEPT !.stored = FALSE],
+  Share(12, 3, TRUE, UnixEpoch) >>
 
 WorldSeq   == <<WorldA, WorldB, WorldC, WorldD, WorldE>>
 WorldNames == <<"A-tree", "B-deletes", "C-mergesets", "D-searchshares", "E-redeleted">>
